@@ -38,6 +38,8 @@ class Peer(object):
         self.vs = {}
         self.known_names = {b'urn:nfc:sn:svc': 16}
         self.known_addrs = (16,)
+        self.responses = []           # payloads sent as I PDUs, one per
+        #                               I PDU received (scripted server)
 
     def gb(self):
         tlv = bytes([1, 1, 0x13])
@@ -96,7 +98,13 @@ class Peer(object):
         elif p.name == 'I':
             key = (p.ssap, p.dsap)
             self.vr[key] = (p.ns + 1) % 16
-            if self.ack:
+            if self.responses:
+                ns = self.vs.get(key, 0)
+                self.vs[key] = (ns + 1) % 16
+                self.out.append(pdu.Information(
+                    p.ssap, p.dsap, ns, self.vr[key],
+                    self.responses.pop(0)).encode())
+            elif self.ack:
                 self.out.append(pdu.ReceiveReady(
                     p.ssap, p.dsap, self.vr[key]).encode())
         elif p.name == 'DISC':
